@@ -47,6 +47,28 @@ func StrBudget(cols []model.Col) int {
 	return (model.MaxRowBytes - fixed) / nv
 }
 
+// padToMax rewrites the first non-NULL VARCHAR value of the row so that the
+// row encodes to exactly model.MaxRowBytes (no-op when it has none).
+func padToMax(cols []model.Col, row []model.Val) {
+	vals := make([]interface{}, len(row))
+	at := -1
+	for i, v := range row {
+		vals[i] = v.Go()
+		if at < 0 && cols[i].Type == model.TVarchar && vals[i] != nil {
+			at = i
+		}
+	}
+	if at < 0 {
+		return
+	}
+	vals[at] = ""
+	room := model.MaxRowBytes - model.EncodedSize(cols, vals)
+	if room < 0 {
+		return
+	}
+	row[at] = model.Str(strings.Repeat("m", room))
+}
+
 func Columns(t *rapid.T, maxCols int) []model.Col {
 	n := rapid.IntRange(1, maxCols).Draw(t, "ncols")
 	var cols []model.Col
@@ -221,6 +243,10 @@ func InsertStmt(rt *rapid.T, t *model.Table, n int, direct, small bool) model.St
 			}
 			row = append(row, Value(rt, "v", c.Type, direct, small, budget))
 		}
+		if !small && len(s.InsCols) == 0 && rapid.IntRange(0, 5).Draw(rt, "fullrow") == 0 {
+			// a row of exactly the largest admissible size: pad its first string
+			padToMax(t.Cols, row)
+		}
 		s.Rows = append(s.Rows, row)
 	}
 	return s
@@ -294,6 +320,13 @@ func NextStmt(rt *rapid.T, cfg HistCfg, db *model.DB) (model.Stmt, bool) {
 		s = model.Stmt{Kind: "delete", Table: t.Name}
 		if rapid.IntRange(0, 7).Draw(rt, "haswhere") > 0 {
 			s.Where = Where(rt, t, direct, "")
+		}
+	}
+	if s.Kind == "update" {
+		// next to a row of the largest admissible size an UPDATE within the
+		// per-column budget can still push that row over the limit: draw again
+		if k, err := db.UpdateVerdict(s); err != nil || k != model.OK {
+			return s, false
 		}
 	}
 	if !direct || s.Kind == "create" {
